@@ -50,12 +50,14 @@ def gen_case(rng, tier):
         k = rng.choice([2, 2, 3, 3])
         frames = [gen_frame(rng, rng.sample(allnames, rng.randint(1, 3)), nrow=n)]
         for _ in range(k - 1):
-            frames.append(gen_frame(rng, rng.sample(allnames, rng.randint(1, 3)), nrow=rng.choice([n, n, 1])))
+            # mostly fitting operands (same length, or one row = broadcast); sometimes one that cannot fit (longer than a
+            # one-row receiver, shorter, longer): the call must refuse it, not stretch or cut any column
+            frames.append(gen_frame(rng, rng.sample(allnames, rng.randint(1, 3)), nrow=rng.choice([n, n, n, 1, 1, n + 2, 2, 3])))
         case["frames"] = frames
     elif op == "update":
         n = rng.choice([1, 2, 3, 4])
         case["frames"] = [gen_frame(rng, rng.sample(allnames, rng.randint(1, 4)), nrow=n),
-                          gen_frame(rng, rng.sample(allnames, rng.randint(1, 3)), nrow=rng.choice([n, n, 1]))]
+                          gen_frame(rng, rng.sample(allnames, rng.randint(1, 3)), nrow=rng.choice([n, n, n, 1, 1, n + 2, 2, 3]))]
     else:
         f = gen_frame(rng, rng.sample(allnames, rng.randint(1, 4)))
         if op == "modify" and f["n"] == 0 and rng.random() < 0.7:
@@ -75,7 +77,7 @@ def gen_case(rng, tier):
         elif op == "modify":
             kvs = []
             for key in rng.sample(names + ["p", "q"], rng.randint(1, 2)):
-                kvs.append([key, rng.choice(["scalar", "vector", "callable"])])
+                kvs.append([key, rng.choice(["scalar", "vector", "callable", "scalar", "vector", "callable", "longvector", "longcallable"])])
             case["kvs"] = kvs
     return case
 
@@ -102,6 +104,10 @@ def gen_cases(ctx):
 def modify_value(kind, key, n):
     if kind == "scalar":
         return 42, [42]
+    if kind in ("longvector", "longcallable"):
+        # two elements too many for the frame (for a one-row frame: a vector that would have to stretch the frame)
+        vec = [100 + r for r in range(n + 2)]
+        return (np.array(vec, dtype=np.int64) if kind == "longvector" else (lambda x: np.array(vec, dtype=np.int64))), vec
     vec = [100 + r for r in range(n)]
     if kind == "vector":
         return np.array(vec, dtype=np.int64), vec
@@ -159,7 +165,7 @@ def model_requests(case, obs):
         a["to_from"] = case["to_from"]
     if op == "modify":
         n = case["frames"][0]["n"]
-        a["kvs"] = [[k, 1 if kind == "scalar" else n] for k, kind in case["kvs"]]
+        a["kvs"] = [[k, 1 if kind == "scalar" else n + 2 if kind.startswith("long") else n] for k, kind in case["kvs"]]
     return [("bind", a)]
 
 
@@ -253,7 +259,7 @@ def expected_layout(case):
     if op == "modify":
         out = [[nm, fit(0, nm, n0)] for nm in names(F[0])]
         for key, kind in case["kvs"]:
-            ln = 1 if kind == "scalar" else n0
+            ln = 1 if kind == "scalar" else n0 + 2 if kind.startswith("long") else n0
             if ln == n0:
                 cells = [["v", key, r] for r in range(ln)]
             elif ln == 1 and n0 >= 1:
